@@ -334,10 +334,10 @@ Proof.
   destruct HR as [HS HP]. rewrite flat_map_leaf in HP.
   pose proof (Permutation_length HP) as HLen. rewrite seq_length in HLen.
   destruct out as [|[i|ts] [|t2 r]]; simpl in HLen; try lia.
-  - inversion H; subst. simpl in HS, HP. rewrite andb_true_r in HS. rewrite app_nil_r in HP.
-    split; [exact HS|]. split; [exact HP|]. eexists; reflexivity.
   - inversion H; subst. split; [|split; [exact HP|eexists; reflexivity]].
     simpl tree_shape. exact HS.
+  - inversion H; subst. simpl in HS, HP. rewrite andb_true_r in HS. rewrite app_nil_r in HP.
+    split; [exact HS|]. split; [exact HP|]. eexists; reflexivity.
   - inversion H; subst. split; [|split; [exact HP|eexists; reflexivity]].
     simpl tree_shape. exact HS.
 Qed.
@@ -349,7 +349,7 @@ Proof.
   destruct levels as [|labels more]; [congruence|]. destruct HK as [HL HK].
   destruct (lh_loop (map PLeaf (seq 0 n)) labels more) as [out|e'] eqn:HR.
   - destruct out as [|[i|ts] [|t2 r]]; discriminate.
-  - inversion H; subst. eapply lh_loop_err; [|exact HK|exact HR].
+  - injection H as <-. eapply lh_loop_err; [|exact HK|exact HR].
     rewrite map_length, seq_length. symmetry; exact HL.
 Qed.
 
